@@ -474,6 +474,9 @@ def r10_read_api_stores_nothing(ctx):
 
 
 def rules(ctx):
+    # the trajectory is the closed form at the parameters the caller supplied: the container they are put into keeps them unchanged (same rule as C16.R2b)
+    from .c16 import r2b_values_stored_as_given
+    r2b_values_stored_as_given(ctx, rid="C09.R11")
     r10_read_api_stores_nothing(ctx)
     r9_reference_feature(ctx)
     r1_rt(ctx)
